@@ -3,6 +3,7 @@ From Coq Require Import ZArith QArith Qround List Bool Lia.
 From Pandora Require Import Lib.Ext Lib.Arr Lib.Blocks Spec.Local Proofs.LocalP Model.Local.
 From Pandora Require Model.MatchingCost Model.Criteria Model.Wta Model.Refine Model.Filters Model.CrossCheck.
 From Pandora Require Spec.Cost Proofs.MatchingCostP Proofs.LocalCostP Proofs.CrossCheckP.
+From Pandora Require Model.Cbca Spec.Cbca Proofs.CbcaP Proofs.LocalCbcaP.
 Import ListNotations.
 Open Scope Z_scope.
 
@@ -156,6 +157,10 @@ End Median.
 
 Definition cfg_wf (G : cfg) : Prop := 0 < g_w G /\ Z.odd (g_w G) = true /\ 0 < g_s G /\ g_dmin G <= g_dmax G.
 
+(* census: window_size 1, 3 or 5 (the code accepts 3 and 5): the bit string fits the uint32 popcount *)
+Definition meas_wf (G : cfg) (m : mmeas) : Prop :=
+  match m with MCensus => g_w G * g_w G <= 32 | _ => True end.
+
 Lemma curve_ext : forall vol vol' n r c r' c',
   (forall k, 0 <= k < n -> vol r c k = vol' r' c' k) -> curve vol n r c = curve vol' n r' c'.
 Proof.
@@ -181,40 +186,50 @@ Proof.
     apply Z.le_ge. apply Z.div_le_lower_bound; nia.
 Qed.
 
+Lemma img_of_fields : forall p q, img_of p = img_of q ->
+  p_L p = p_L q /\ p_R p = p_R q /\ p_mL p = p_mL q /\ p_mR p = p_mR q.
+Proof. intros p q H. unfold img_of in H. injection H. intros. repeat split; assumption. Qed.
+
 Section MC.
-  Variables (ssd : bool) (E : Criteria.env) (G : cfg).
+  Variables (m : mmeas) (E : Criteria.env) (G : cfg).
   Hypothesis Hwf : cfg_wf G.
+  Hypothesis Hm : meas_wf G m.
   Variables (F F' : frame pix) (r c r' c' : Z).
   Hypothesis HF : cone_in F (rad_mc G) r c.
   Hypothesis HF' : cone_in F' (rad_mc G) r' c'.
-  Hypothesis Hag : agree_on F F' (rad_mc G) r c r' c'.
+  (* only the input part of the states (radiometry, mask values) has to agree *)
+  Hypothesis Hag : agree_via img_of F F' (rad_mc G) r c r' c'.
   Let h := MatchingCost.offset (g_w G).
 
   Lemma h0 : 0 <= h.
   Proof. destruct Hwf as (Hw & Ho & _). destruct (MatchingCostP.odd_offset _ Hw Ho). assumption. Qed.
 
   Lemma px_at : forall a b, - h <= a <= h -> - (h + dspan G) <= b <= h + dspan G ->
-    f_at F (r + a) (c + b) = f_at F' (r' + a) (c' + b) /\
+    (p_L (f_at F (r + a) (c + b)) = p_L (f_at F' (r' + a) (c' + b)) /\
+     p_R (f_at F (r + a) (c + b)) = p_R (f_at F' (r' + a) (c' + b)) /\
+     p_mL (f_at F (r + a) (c + b)) = p_mL (f_at F' (r' + a) (c' + b)) /\
+     p_mR (f_at F (r + a) (c + b)) = p_mR (f_at F' (r' + a) (c' + b))) /\
     Cost.in_image (f_nr F) (f_nc F) (r + a) (c + b) = true /\
     Cost.in_image (f_nr F') (f_nc F') (r' + a) (c' + b) = true.
   Proof.
     intros a b Ha Hb. unfold cone_in, rad_mc in HF, HF'. cbn [rho lam mu] in HF, HF'. fold h in HF, HF'.
     split; [|split].
-    - apply Hag. unfold in_cone, rad_mc. cbn [rho lam mu]. fold h. lia.
+    - apply img_of_fields. apply Hag. unfold in_cone, rad_mc. cbn [rho lam mu]. fold h. lia.
     - unfold Cost.in_image. apply band_true4; lia.
     - unfold Cost.in_image. apply band_true4; lia.
   Qed.
 
-  Lemma omask_agree : forall has (g : pix -> Z) a b, - h <= a <= h -> - (h + dspan G) <= b <= h + dspan G ->
+  Lemma omask_agree : forall has (g : pix -> Z) a b,
+    g (f_at F (r + a) (c + b)) = g (f_at F' (r' + a) (c' + b)) ->
     LocalCostP.mask_agree (omask has (fld g F)) (omask has (fld g F')) (r + a) (c + b) (r' + a) (c' + b).
   Proof.
-    intros has g a b Ha Hb. destruct has; cbn [omask LocalCostP.mask_agree]; [|exact I].
-    unfold fld. destruct (px_at a b Ha Hb) as (-> & _). reflexivity.
+    intros has g a b Hg. destruct has; cbn [omask LocalCostP.mask_agree]; [|exact I].
+    unfold fld. exact Hg.
   Qed.
 
   Lemma left_curve_local :
-    curve ((if ssd then MatchingCost.ssd_volume else MatchingCost.sad_volume) (inp_left G F) (g_dmin G) (g_dmax G)) (n_disp G) r c
-    = curve ((if ssd then MatchingCost.ssd_volume else MatchingCost.sad_volume) (inp_left G F') (g_dmin G) (g_dmax G)) (n_disp G) r' c'.
+    curve (mc_vol m (inp_left G F) (g_dmin G) (g_dmax G)) (n_disp G) r c
+    = curve (mc_vol m (inp_left G F') (g_dmin G) (g_dmax G)) (n_disp G) r' c'.
   Proof.
     pose proof h0 as Hh. destruct Hwf as (Hw & Ho & Hs & Hdd).
     assert (Hin : in_frame F r c /\ in_frame F' r' c').
@@ -227,20 +242,25 @@ Section MC.
               LocalCostP.inp_alike_left (inp_left G F) (inp_left G F') r c r' c' a b).
     { intros a b Ha Hb. unfold LocalCostP.inp_alike_left, LocalCostP.px_alike, inp_left. cbn.
       assert (Hb' : - (h + dspan G) <= b <= h + dspan G) by lia.
-      destruct (px_at a b Ha Hb') as (E1 & E2 & E3). rewrite E2, E3. unfold fld. rewrite E1.
-      split; [reflexivity|]. split; [reflexivity|]. apply (omask_agree (g_hasL G) p_mL a b Ha Hb'). }
+      destruct (px_at a b Ha Hb') as ((EL & ER & EmL & EmR) & E2 & E3). rewrite E2, E3.
+      split; [reflexivity|]. split; [unfold fld; exact EL|]. apply (omask_agree (g_hasL G) p_mL a b EmL). }
     assert (HR : forall a b, - h <= a <= h ->
               - h + Cost.dfloor (g_s G) (MatchingCost.disp_scaled (g_s G) (g_dmin G) k) <= b
               <= h + Cost.dceil (g_s G) (MatchingCost.disp_scaled (g_s G) (g_dmin G) k) ->
               LocalCostP.inp_alike_right (inp_left G F) (inp_left G F') r c r' c' a b).
     { intros a b Ha Hb. unfold LocalCostP.inp_alike_right, LocalCostP.px_alike, inp_left. cbn.
       assert (Hb' : - (h + dspan G) <= b <= h + dspan G) by lia.
-      destruct (px_at a b Ha Hb') as (E1 & E2 & E3). rewrite E2, E3. unfold fld. rewrite E1.
-      split; [reflexivity|]. split; [reflexivity|]. apply (omask_agree (g_hasR G) p_mR a b Ha Hb'). }
-    destruct ssd.
+      destruct (px_at a b Ha Hb') as ((EL & ER & EmL & EmR) & E2 & E3). rewrite E2, E3.
+      split; [reflexivity|]. split; [unfold fld; exact ER|]. apply (omask_agree (g_hasR G) p_mR a b EmR). }
+    destruct m as [| | |zq]; cbn [mc_vol].
+    - apply (LocalCostP.sad_model_local (inp_left G F) (inp_left G F') (g_dmin G) (g_dmax G) r c r' c' k);
+        try assumption; cbn; try (repeat split; assumption); try lia; repeat split; reflexivity.
     - apply (LocalCostP.ssd_model_local (inp_left G F) (inp_left G F') (g_dmin G) (g_dmax G) r c r' c' k);
         try assumption; cbn; try (repeat split; assumption); try lia; repeat split; reflexivity.
-    - apply (LocalCostP.sad_model_local (inp_left G F) (inp_left G F') (g_dmin G) (g_dmax G) r c r' c' k);
+    - apply (LocalCostP.census_model_local (inp_left G F) (inp_left G F') (g_dmin G) (g_dmax G) r c r' c' k);
+        try assumption; cbn; try (repeat split; assumption); try lia; try exact Hm; repeat split; reflexivity.
+    - f_equal.
+      apply (LocalCostP.zncc_model_local (inp_left G F) (inp_left G F') (g_dmin G) (g_dmax G) r c r' c' k);
         try assumption; cbn; try (repeat split; assumption); try lia; repeat split; reflexivity.
   Qed.
 End MC.
@@ -413,6 +433,12 @@ Lemma n_disp_swap : forall G, n_disp (swapc G) = n_disp G.
 Proof. intro G. unfold n_disp, MatchingCost.nb_disp, swapc. cbn [g_s g_dmin g_dmax]. f_equal. ring. Qed.
 Lemma agree_swap : forall F F' R r c r' c', agree_on F F' R r c r' c' -> agree_on (swapf F) (swapf F') R r c r' c'.
 Proof. intros F F' R r c r' c' H a b Hab. unfold swapf. cbn [f_at]. now rewrite (H a b Hab). Qed.
+Lemma agree_via_swap : forall F F' R r c r' c',
+  agree_via img_of F F' R r c r' c' -> agree_via img_of (swapf F) (swapf F') R r c r' c'.
+Proof.
+  intros F F' R r c r' c' H a b Hab. destruct (img_of_fields _ _ (H a b Hab)) as (E1 & E2 & E3 & E4).
+  unfold swapf, swap_pix, img_of. cbn [f_at p_L p_R p_mL p_mR]. congruence.
+Qed.
 
 Lemma all_nan_curve : forall l l', l = l' -> all_nan l = all_nan l'.
 Proof. intros; subst; reflexivity. Qed.
@@ -423,7 +449,7 @@ Section MCflags.
   Variables (F F' : frame pix) (r c r' c' : Z) (b b' : bool).
   Hypothesis HF : cone_in F (rad_mc G) r c.
   Hypothesis HF' : cone_in F' (rad_mc G) r' c'.
-  Hypothesis Hag : agree_on F F' (rad_mc G) r c r' c'.
+  Hypothesis Hag : agree_via img_of F F' (rad_mc G) r c r' c'.
   Hypothesis Hb : b = b'.
 
   Lemma left_flag_local :
@@ -439,25 +465,32 @@ Section MCflags.
     - destruct Hwf as (_ & _ & _ & Hdd). exact Hdd.
     - lia.
     - lia.
-    - intros a d Ha Hd. unfold fld. rewrite (Hag a d); [reflexivity|].
+    - intros a d Ha Hd. unfold fld. apply img_of_fields. apply Hag.
       unfold in_cone, rad_mc. cbn [rho lam mu]. lia.
-    - intros a d Ha Hd. unfold fld. rewrite (Hag a d); [reflexivity|].
+    - intros a d Ha Hd. unfold fld. apply img_of_fields. apply Hag.
       unfold in_cone, rad_mc. cbn [rho lam mu]. lia.
     - exact Hb.
   Qed.
 End MCflags.
 
-Theorem mc_step_local : forall ssd E G, cfg_wf G -> local no_side (mc_step ssd E G) (rad_mc G) (rad_mc G).
+Lemma rad0_wf : rad_wf rad0.
+Proof. unfold rad_wf, rad0. cbn. lia. Qed.
+
+(* the matching-cost step reads the images only (window + disparity span); of the state of the pixel itself it keeps
+   the disparities *)
+Theorem mc_step_local : forall m E G, cfg_wf G -> meas_wf G m ->
+  local2 img_of no_side (mc_step m E G) rad0 (rad_mc G) (rad_mc G).
 Proof.
-  intros ssd E G Hwf F F' r c r' c' HF HF' Hag _.
-  pose proof (agree_centre _ F F' _ r c r' c' (rad_mc_wf G Hwf) Hag) as E0.
+  intros m E G Hwf Hm F F' r c r' c' HF HF' Hag0 Hag _.
+  pose proof (agree_centre _ F F' _ r c r' c' rad0_wf Hag0) as E0.
   assert (Hwf' : cfg_wf (swapc G)).
   { destruct Hwf as (A1 & A2 & A3 & A4). unfold cfg_wf, swapc. cbn [g_w g_s g_dmin g_dmax]. repeat split; try assumption. lia. }
+  assert (Hm' : meas_wf (swapc G) m) by (destruct m; exact Hm).
   assert (HFs : cone_in (swapf F) (rad_mc (swapc G)) r c) by (rewrite rad_mc_swap; exact HF).
   assert (HFs' : cone_in (swapf F') (rad_mc (swapc G)) r' c') by (rewrite rad_mc_swap; exact HF').
-  assert (Hags : agree_on (swapf F) (swapf F') (rad_mc (swapc G)) r c r' c') by (rewrite rad_mc_swap; apply agree_swap; exact Hag).
-  pose proof (left_curve_local ssd G Hwf F F' r c r' c' HF HF' Hag) as CL.
-  pose proof (left_curve_local ssd (swapc G) Hwf' (swapf F) (swapf F') r c r' c' HFs HFs' Hags) as CR.
+  assert (Hags : agree_via img_of (swapf F) (swapf F') (rad_mc (swapc G)) r c r' c') by (rewrite rad_mc_swap; apply agree_via_swap; exact Hag).
+  pose proof (left_curve_local m G Hwf Hm F F' r c r' c' HF HF' Hag) as CL.
+  pose proof (left_curve_local m (swapc G) Hwf' Hm' (swapf F) (swapf F') r c r' c' HFs HFs' Hags) as CR.
   rewrite n_disp_swap in CR.
   change (inp_left (swapc G) (swapf F)) with (inp_right G F) in CR.
   change (inp_left (swapc G) (swapf F')) with (inp_right G F') in CR.
@@ -468,6 +501,175 @@ Proof.
   change (lay_right G F') with (lay_left (swapc G) (swapf F')).
   rewrite (left_flag_local E (swapc G) Hwf' (swapf F) (swapf F') r c r' c' _ _ HFs HFs' Hags eq_refl).
   reflexivity.
+Qed.
+
+(* ------------------------------------------------------------------ cbca aggregation: through
+   LocalCbcaP.cbca_model_local (C11's model = spec, then the locality of the spec) *)
+
+Lemma nth_range : forall n lo i d, (i < n)%nat -> nth i (MatchingCost.range lo n) d = lo + Z.of_nat i.
+Proof.
+  induction n; intros lo i d Hi; [lia|]. cbn [MatchingCost.range]. destruct i; cbn [nth]; [lia|].
+  rewrite IHn by lia. lia.
+Qed.
+Lemma range_length : forall m lo, length (MatchingCost.range lo m) = m.
+Proof. induction m; intros; cbn [MatchingCost.range length]; auto. Qed.
+
+(* sample k of the disparity axis: d = dmin + k / s; its floor and the index of its shifted right image *)
+Lemma sample_disp : forall s dmin n k, 0 <= k < n ->
+  nth (Z.to_nat k) (disps s dmin n) 0%Q = Qred (inject_Z dmin + (k # Z.to_pos s))%Q.
+Proof.
+  intros s dmin n k Hk. unfold disps.
+  set (f := fun k0 : Z => Qred (inject_Z dmin + (k0 # Z.to_pos s))).
+  rewrite (nth_indep _ 0%Q (f 0)).
+  2:{ rewrite map_length. unfold MatchingCost.zrange. rewrite range_length. lia. }
+  rewrite map_nth. unfold MatchingCost.zrange. rewrite nth_range by lia. unfold f. f_equal. f_equal. f_equal. lia.
+Qed.
+Lemma disps_length : forall s dmin n, 0 <= n -> Z.of_nat (length (disps s dmin n)) = n.
+Proof. intros. unfold disps, MatchingCost.zrange. rewrite map_length, range_length. lia. Qed.
+
+Lemma sample_floor : forall s dmin k, 0 < s ->
+  Qfloor (Qred (inject_Z dmin + (k # Z.to_pos s))) = (dmin * s + k) / s.
+Proof.
+  intros s dmin k Hs. rewrite (Qfloor_comp _ _ (Qred_correct _)).
+  unfold Qfloor, Qplus, inject_Z. cbn [Qnum Qden]. rewrite Pos.mul_1_l, Z2Pos.id by lia. f_equal. lia.
+Qed.
+Lemma sample_image : forall s dmin k, 0 < s ->
+  Spec.Cbca.plane_image s (Qred (inject_Z dmin + (k # Z.to_pos s))) = (dmin * s + k) mod s.
+Proof.
+  intros s dmin k Hs. unfold Spec.Cbca.plane_image. rewrite sample_floor by assumption.
+  set (D := dmin * s + k).
+  rewrite <- (Qfloor_Z (D mod s)). apply Qfloor_comp.
+  rewrite (Qred_correct _).
+  unfold Qeq, Qminus, Qplus, Qopp, Qmult, inject_Z. cbn [Qnum Qden].
+  rewrite !Pos.mul_1_l, !Pos.mul_1_r, Z2Pos.id by lia.
+  pose proof (Z.div_mod D s ltac:(lia)). unfold D in *. nia.
+Qed.
+
+Lemma rad_cbca_wf : forall G dist, cfg_wf G ->
+  rad_wf (rad_cbca_S dist) /\ rad_wf (rad_cbca_I G dist) /\ rad_wf (rad_cbca_M G dist).
+Proof.
+  intros G dist Hwf. assert (0 <= dspan G) by (unfold dspan, dpos, dneg; lia).
+  unfold rad_wf, rad_cbca_S, rad_cbca_I, rad_cbca_M, cbca_arm. cbn [rho lam mu]. lia.
+Qed.
+
+Section CbcaLeft.
+  Variables (dist : Z) (inten : Q) (G : cfg).
+  Hypothesis Hwf : cfg_wf G.
+  Hypothesis Hdist : 1 <= dist.
+  Variables (F F' : frame pix) (r c r' c' : Z).
+  Hypothesis HF : cone_in F (rad_cbca_M G dist) r c.
+  Hypothesis HF' : cone_in F' (rad_cbca_M G dist) r' c'.
+  Hypothesis HagS : agree_on F F' (rad_cbca_S dist) r c r' c'.
+  Hypothesis HagI : agree_via img_of F F' (rad_cbca_I G dist) r c r' c'.
+  Let A := LocalCbcaP.arm_max dist.
+  Let h := MatchingCost.offset (g_w G).
+
+  Lemma cbca_left_local : forall k, 0 <= k < n_disp G ->
+    cbca_at (cbca_left dist inten G F) k r c = cbca_at (cbca_left dist inten G F') k r' c'.
+  Proof.
+    intros k Hk. pose proof (h0 G Hwf) as Hh. fold h in Hh. destruct Hwf as (Hw & Ho & Hs & Hdd).
+    assert (Hsp : - dspan G <= g_dmin G /\ g_dmax G <= dspan G /\ 0 <= dspan G) by (unfold dspan, dpos, dneg; lia).
+    assert (HA : 1 <= A) by (unfold A, LocalCbcaP.arm_max; lia).
+    unfold cone_in, rad_cbca_M in HF, HF'. cbn [rho lam mu] in HF, HF'.
+    change (cbca_arm dist) with A in HF, HF'. fold h in HF, HF'.
+    assert (Hn : 0 <= n_disp G) by (unfold n_disp, MatchingCost.nb_disp; nia).
+    pose proof (sample_bounds (g_s G) (g_dmin G) (g_dmax G) k Hs Hk) as SB. cbv zeta in SB.
+    unfold MatchingCost.disp_scaled, Cost.dfloor, Cost.dceil in SB.
+    rewrite MatchingCostP.ceil_floor in SB by assumption.
+    set (D := g_dmin G * g_s G + k) in *.
+    assert (Ee : D / g_s G + (if D mod g_s G =? 0 then 0 else 1) <= g_dmax G) by (destruct (D mod g_s G =? 0); lia).
+    assert (Ee0 : D / g_s G <= g_dmax G) by (destruct (D mod g_s G =? 0); lia).
+    destruct SB as [SB1 _].
+    change (cbca_at (cbca_left dist inten G F) k r c) with (CbcaP.out_at (cbca_left dist inten G F) k r c).
+    change (cbca_at (cbca_left dist inten G F') k r' c') with (CbcaP.out_at (cbca_left dist inten G F') k r' c').
+    assert (Ed : CbcaP.nth_disp (cbca_left dist inten G F) k = Qred (inject_Z (g_dmin G) + (k # Z.to_pos (g_s G)))).
+    { unfold CbcaP.nth_disp, cbca_left. cbn [Cbca.i_disps]. apply (sample_disp _ _ (n_disp G)). exact Hk. }
+    apply (LocalCbcaP.cbca_model_local (cbca_left dist inten G F) (cbca_left dist inten G F') k k r c r' c').
+    - unfold cbca_left. cbn. repeat split; reflexivity.
+    - exact Hdist.
+    - unfold cbca_left. cbn [Cbca.i_subpix]. lia.
+    - unfold cbca_left. cbn [Cbca.i_off]. exact Hh.
+    - unfold CbcaP.n_disp, cbca_left. cbn [Cbca.i_disps]. rewrite disps_length by assumption. exact Hk.
+    - unfold CbcaP.n_disp, cbca_left. cbn [Cbca.i_disps]. rewrite disps_length by assumption. exact Hk.
+    - reflexivity.
+    - rewrite Ed. unfold Spec.Cbca.plane_shift. rewrite sample_floor, sample_image by assumption. fold D.
+      unfold cbca_left. cbn [Cbca.i_dist Cbca.i_off Cbca.i_subpix Cbca.i_nr Cbca.i_nc]. fold A h.
+      destruct (D mod g_s G =? 0); lia.
+    - rewrite Ed. unfold Spec.Cbca.plane_shift. rewrite sample_floor, sample_image by assumption. fold D.
+      unfold cbca_left. cbn [Cbca.i_dist Cbca.i_off Cbca.i_subpix Cbca.i_nr Cbca.i_nc]. fold A h.
+      destruct (D mod g_s G =? 0); lia.
+    - (* left image and mask *)
+      intros a b Ha Hb. cbn [cbca_left Cbca.i_dist] in Ha, Hb. fold A in Ha, Hb.
+      assert (Hc : in_cone (rad_cbca_I G dist) a b).
+      { unfold in_cone, rad_cbca_I. cbn [rho lam mu]. change (cbca_arm dist) with A. lia. }
+      destruct (img_of_fields _ _ (HagI a b Hc)) as (EL & ER & EmL & EmR).
+      unfold cbca_left. cbn [Cbca.i_imL Cbca.i_mskL]. unfold qimg, fld. rewrite EL. split; [reflexivity|].
+      destruct (g_hasL G); cbn [omask LocalCbcaP.omask_agree]; [exact EmL|exact I].
+    - (* the shifted right image *)
+      intros a b Ha Hb. cbn [cbca_left Cbca.i_dist] in Ha, Hb. fold A in Ha, Hb.
+      rewrite Ed. unfold Spec.Cbca.plane_shift. rewrite sample_floor, sample_image by assumption. fold D.
+      unfold cbca_left. cbn [Cbca.i_imR Cbca.i_subpix]. unfold shifted, MatchingCost.shift_right, fld.
+      assert (Hc : in_cone (rad_cbca_I G dist) a (D / g_s G + b)).
+      { unfold in_cone, rad_cbca_I. cbn [rho lam mu]. change (cbca_arm dist) with A. lia. }
+      destruct (img_of_fields _ _ (HagI a (D / g_s G + b) Hc)) as (_ & ER & _ & _).
+      replace (c + (D / g_s G + b)) with (c + D / g_s G + b) in ER by lia.
+      replace (c' + (D / g_s G + b)) with (c' + D / g_s G + b) in ER by lia.
+      destruct (D mod g_s G =? 0) eqn:Em; [rewrite ER; reflexivity|].
+      assert (Hc1 : in_cone (rad_cbca_I G dist) a (D / g_s G + b + 1)).
+      { unfold in_cone, rad_cbca_I. cbn [rho lam mu]. change (cbca_arm dist) with A. lia. }
+      destruct (img_of_fields _ _ (HagI a (D / g_s G + b + 1) Hc1)) as (_ & ER1 & _ & _).
+      replace (c + (D / g_s G + b + 1)) with (c + D / g_s G + b + 1) in ER1 by lia.
+      replace (c' + (D / g_s G + b + 1)) with (c' + D / g_s G + b + 1) in ER1 by lia.
+      rewrite ER, ER1. reflexivity.
+    - (* the right mask *)
+      intros a b Ha Hb. cbn [cbca_left Cbca.i_dist Cbca.i_subpix] in Ha, Hb. fold A in Ha, Hb.
+      rewrite Ed in *. unfold Spec.Cbca.plane_shift in *. rewrite sample_floor in * by assumption.
+      rewrite sample_image in Hb by assumption. fold D in Hb |- *.
+      assert (Hc : in_cone (rad_cbca_I G dist) a (D / g_s G + b)).
+      { unfold in_cone, rad_cbca_I. cbn [rho lam mu]. change (cbca_arm dist) with A.
+        destruct (D mod g_s G =? 0); lia. }
+      destruct (img_of_fields _ _ (HagI a (D / g_s G + b) Hc)) as (_ & _ & _ & EmR).
+      replace (c + (D / g_s G + b)) with (c + D / g_s G + b) in EmR by lia.
+      replace (c' + (D / g_s G + b)) with (c' + D / g_s G + b) in EmR by lia.
+      unfold cbca_left. cbn [Cbca.i_mskR]. unfold fld.
+      destruct (g_hasR G); cbn [omask LocalCbcaP.omask_agree]; [exact EmR|exact I].
+    - (* the input costs *)
+      intros a b Ha Hb. cbn [cbca_left Cbca.i_dist] in Ha, Hb. fold A in Ha, Hb.
+      unfold cbca_left. cbn [Cbca.i_cv]. unfold cv_at. rewrite (HagS a b); [reflexivity|].
+      unfold in_cone, rad_cbca_S. cbn [rho lam mu]. change (cbca_arm dist) with A. lia.
+  Qed.
+End CbcaLeft.
+
+Lemma cbca_right_swap : forall dist inten G F,
+  cbca_right dist inten G F = cbca_left dist inten (swapc G) (swapf F).
+Proof. intros. unfold cbca_right, cbca_left. rewrite n_disp_swap. reflexivity. Qed.
+
+Lemma rad_cbca_swap : forall G dist,
+  rad_cbca_I (swapc G) dist = rad_cbca_I G dist /\ rad_cbca_M (swapc G) dist = rad_cbca_M G dist.
+Proof. intros. unfold rad_cbca_I, rad_cbca_M. rewrite dspan_swap. split; reflexivity. Qed.
+
+(* cbca, left and right cost volumes: the costs of the square of the longest arm, the images one pixel further
+   (3x3 median) and, along the columns, the disparity span further; every cbca_distance >= 1, every cbca_intensity *)
+Theorem cbca_step_local : forall dist inten G, cfg_wf G -> 1 <= dist ->
+  local2 img_of no_side (cbca_step dist inten G) (rad_cbca_S dist) (rad_cbca_I G dist) (rad_cbca_M G dist).
+Proof.
+  intros dist inten G Hwf Hdist F F' r c r' c' HF HF' HagS HagI _.
+  destruct (rad_cbca_wf G dist Hwf) as (W1 & W2 & W3).
+  pose proof (agree_centre _ F F' _ r c r' c' W1 HagS) as E0.
+  assert (Hwf' : cfg_wf (swapc G)).
+  { destruct Hwf as (A1 & A2 & A3 & A4). unfold cfg_wf, swapc. cbn [g_w g_s g_dmin g_dmax]. repeat split; try assumption. lia. }
+  destruct (rad_cbca_swap G dist) as (S1 & S2).
+  unfold cbca_step. rewrite E0. f_equal.
+  - apply map_ext_in. intros k Hk. apply MatchingCostP.zrange_In in Hk.
+    apply (cbca_left_local dist inten G Hwf Hdist F F' r c r' c' HF HF' HagS HagI). lia.
+  - apply map_ext_in. intros k Hk. apply MatchingCostP.zrange_In in Hk.
+    rewrite !cbca_right_swap.
+    apply (cbca_left_local dist inten (swapc G) Hwf' Hdist (swapf F) (swapf F') r c r' c').
+    + rewrite S2. exact HF.
+    + rewrite S2. exact HF'.
+    + apply agree_swap. exact HagS.
+    + rewrite S1. apply agree_via_swap. exact HagI.
+    + rewrite n_disp_swap. lia.
 Qed.
 
 (* ------------------------------------------------------------------ cross-checking: one row, the
@@ -648,47 +850,72 @@ End Bilateral.
 (* ------------------------------------------------------------------ pipelines *)
 
 Definition env_wf (V : env) : Prop := cfg_wf (e_cfg V) /\ 1 <= e_bwta V /\ 1 <= e_bmed V /\ 1 <= e_bbil V.
-Definition step_wf (s : step) : Prop :=
-  match s with SMedian w => 0 <= w | SBilateral sigma _ _ => 0 <= bil_win sigma | _ => True end.
+Definition step_wf (G : cfg) (s : step) : Prop :=
+  match s with
+  | SMc m => meas_wf G m
+  | SCbca dist _ => 1 <= dist
+  | SMedian w => 0 <= w
+  | SBilateral sigma _ _ => 0 <= bil_win sigma
+  | _ => True
+  end.
 
-Lemma step_D_wf : forall G s, cfg_wf G -> step_wf s -> rad_wf (step_D G s) /\ rad_wf (step_M G s).
+Lemma step_rad_wf : forall G s, cfg_wf G -> step_wf G s ->
+  rad_wf (step_S G s) /\ rad_wf (step_I G s) /\ rad_wf (step_M G s).
 Proof.
   intros G s Hwf Hs. pose proof (h0 G Hwf) as Hh.
   assert (0 <= dspan G) by (unfold dspan, dpos, dneg; lia).
-  destruct s; cbn [step_D step_M step_wf] in *; unfold rad_wf, rad_mc, rad0, rad_filter, rad_xcheck, rad_xcheck_margin;
+  destruct s; unfold step_S, step_I, step_M; cbn [forget kstep_S kstep_I kstep_M step_wf] in *;
+    unfold rad_wf, rad_mc, rad0, rad_filter, rad_xcheck, rad_xcheck_margin, rad_cbca_S, rad_cbca_I, rad_cbca_M, cbca_arm;
     cbn [rho lam mu]; lia.
 Qed.
 
-Lemma step_local : forall V s, env_wf V -> step_wf s ->
-  local (step_side (e_cfg V) s) (step_op V s) (step_D (e_cfg V) s) (step_M (e_cfg V) s).
+(* no step rewrites the images *)
+Lemma step_keeps : forall V s, keeps img_of (step_op V s).
+Proof. intros V s F r c. destruct s; reflexivity. Qed.
+
+Lemma step_local : forall V s, env_wf V -> step_wf (e_cfg V) s ->
+  local2 img_of (step_side (e_cfg V) s) (step_op V s) (step_S (e_cfg V) s) (step_I (e_cfg V) s) (step_M (e_cfg V) s).
 Proof.
-  intros V s (Hc & Hb1 & Hb2 & Hb3) Hs. destruct s; cbn [step_side step_op step_D step_M].
+  intros V s (Hc & Hb1 & Hb2 & Hb3) Hs.
+  destruct s; unfold step_S, step_I, step_M; cbn [step_side step_op forget kstep_S kstep_I kstep_M step_wf] in *.
   - apply mc_step_local; assumption.
-  - apply wta_step_local; assumption.
-  - apply refine_step_local.
-  - apply median_step_local; assumption.
-  - apply bilateral_step_local; assumption.
-  - apply xcheck_step_local; assumption.
+  - apply cbca_step_local; assumption.
+  - apply local_local2. apply wta_step_local; assumption.
+  - apply local_local2. apply refine_step_local.
+  - apply local_local2. apply median_step_local; assumption.
+  - apply local_local2. apply bilateral_step_local; assumption.
+  - apply local_local2. apply xcheck_step_local; assumption.
 Qed.
 
-Lemma pipe_chain : forall V steps, env_wf V -> Forall step_wf steps ->
-  chain (pipe_side V steps) (map (step_op V) steps) (fst (pipe_rad (e_cfg V) steps)) (snd (pipe_rad (e_cfg V) steps)).
+Lemma pipe_chain : forall V steps, env_wf V -> Forall (step_wf (e_cfg V)) steps ->
+  chain2 img_of (pipe_side V steps) (map (step_op V) steps)
+    (r3_S (pipe_rad3 (e_cfg V) steps)) (r3_I (pipe_rad3 (e_cfg V) steps)) (r3_M (pipe_rad3 (e_cfg V) steps)).
 Proof.
   intros V steps HV. induction 1 as [|s rest Hs Hrest IH].
   - cbn. constructor.
-  - cbn [map pipe_side pipe_rad]. destruct (pipe_rad (e_cfg V) rest) as [Ds Ms] eqn:Er. cbn [fst snd] in *.
-    destruct (step_D_wf (e_cfg V) s (proj1 HV) Hs).
-    constructor; try assumption. apply step_local; assumption.
+  - cbn [map pipe_side]. unfold pipe_rad3 in *. cbn [map kpipe_rad3].
+    destruct (kpipe_rad3 (e_cfg V) (map forget rest)) as [[DSs DIs] Ms] eqn:Er. unfold r3_S, r3_I, r3_M in *. cbn [fst snd] in *.
+    destruct (step_rad_wf (e_cfg V) s (proj1 HV) Hs) as (W1 & W2 & W3).
+    apply (chain2_cons img_of (step_side (e_cfg V) s) (step_op V s) (step_S (e_cfg V) s) (step_I (e_cfg V) s) (step_M (e_cfg V) s));
+      try assumption.
+    + apply step_keeps.
+    + apply step_local; assumption.
 Qed.
 
-Theorem pipe_local : forall V steps, env_wf V -> Forall step_wf steps ->
+(* MAIN: every pipeline of local steps is local, in the two-cone sense ... *)
+Theorem pipe_local2 : forall V steps, env_wf V -> Forall (step_wf (e_cfg V)) steps ->
+  local2 img_of (pipe_side V steps) (run_pipe (map (step_op V) steps))
+    (r3_S (pipe_rad3 (e_cfg V) steps)) (r3_I (pipe_rad3 (e_cfg V) steps)) (r3_M (pipe_rad3 (e_cfg V) steps)).
+Proof. intros. apply pipeline_local2. apply pipe_chain; assumption. Qed.
+
+(* ... hence a function of the data of ONE cone, the larger of the two *)
+Theorem pipe_local : forall V steps, env_wf V -> Forall (step_wf (e_cfg V)) steps ->
   local (pipe_side V steps) (run_pipe (map (step_op V) steps))
         (fst (pipe_rad (e_cfg V) steps)) (snd (pipe_rad (e_cfg V) steps)).
-Proof. intros. apply pipeline_local. apply pipe_chain; assumption. Qed.
-
-Lemma pipe_rad_forget : forall G steps, pipe_rad G steps = kpipe_rad G (map forget steps).
 Proof.
-  induction steps as [|s rest IH]; cbn [pipe_rad kpipe_rad map]; [reflexivity|].
-  rewrite IH. destruct (kpipe_rad G (map forget rest)). destruct s; reflexivity.
+  intros V steps HV Hs. unfold pipe_rad, kpipe_rad. cbn [fst snd].
+  apply (local2_local _ _ _ img_of). apply pipe_local2; assumption.
 Qed.
 
+Lemma pipe_rad_forget : forall G steps, pipe_rad G steps = kpipe_rad G (map forget steps).
+Proof. reflexivity. Qed.
